@@ -22,7 +22,7 @@ THEOREMS = [
     "B2Z.Sched.C14_failure_surfaces", "B2Z.Sched.C14_success_means_all_done", "B2Z.Sched.C14_error_kind",
     "B2Z.Sched.C14_runtime_error_means_death", "B2Z.Sched.C14_body_exception_propagates", "B2Z.Sched.C14_sync_executor",
     "B2Z.Sched.C14_exit_never_blocks_on_lost_lock", "B2Z.Sched.C14_death_reaches_exit_as_failure", "B2Z.Sched.C14_exit_success_path",
-    "B2Z.Sched.C14_unrepaired_exit_hangs_counterexample",
+    "B2Z.Sched.C14_unrepaired_exit_hangs_counterexample", "B2Z.Sched.C14_worker_progress_update_bounded",
 ]
 ASSUMPTIONS = [
     "concurrent.futures liveness/soundness: every submitted future appears exactly once in as_completed; ok only if the task returned; a dead worker breaks every unfinished future (hypotheses of the pool model, observed on real pools every run, not proved)",
@@ -341,29 +341,39 @@ def pipeline_cases(ctx, work, rng):
             if not ctx.thorough:
                 continue
             jobs.append((what, src, mode, 0 if what != "plink" else 0, 3))
+    # the one-shot convert (temporary intermediate store): a task of its explode or encode phase fails, also with an OSError
+    for inner in ("explode", "encode"):
+        for mode in (("raise", "oserror", "die") if ctx.thorough else ("oserror", rng.choice(["raise", "die"]))):
+            jobs.append((f"convert:{inner}", str(vcf), mode, rng.randrange(0, 1000), rng.choice([1, 2])))
     for what, src, mode, idx, workers in jobs:
         out = pathlib.Path(work) / f"out_{what}_{mode}"
         shutil.rmtree(out, ignore_errors=True)
         env = dict(os.environ)
-        env["B2Z_VERIF_INJECT"] = json.dumps({"target": what, "index": idx, "mode": mode})
+        env["B2Z_VERIF_INJECT"] = json.dumps({"target": what.split(":")[-1], "index": idx, "mode": mode})
         env["B2Z_VERIF_SHOW_PROGRESS"] = "1" if (len(str(idx)) + workers + len(mode)) % 2 else "0"
         env["PYTHONPATH"] = f"{common.ROOT / 'harness' / 'inject'}:{common.REPO}:{common.ROOT / 'harness'}"
         inp = {"command": what, "failure": mode, "task": idx, "workers": workers}
         ctx.case(("pipeline", what, mode, idx, workers), True)
         ctx.count(f"pipeline_{what}_{mode}")
         try:
-            proc = subprocess.Popen([sys.executable, str(common.ROOT / "harness" / "c14_pipeline.py"), "explode" if what == "scan" else what,
+            proc = subprocess.Popen([sys.executable, "-X", "faulthandler", str(common.ROOT / "harness" / "c14_pipeline.py"),
+                                     "explode" if what == "scan" else what.split(":")[0],
                                      str(workers), src, str(out)],
                                     env=env, stdout=subprocess.PIPE, stderr=subprocess.PIPE, text=True, start_new_session=True)
             try:
                 so, se = proc.communicate(timeout=60)
             except subprocess.TimeoutExpired:
+                os.kill(proc.pid, signal.SIGABRT)         # faulthandler: where is the driving process stuck?
+                time.sleep(1)
                 os.killpg(proc.pid, signal.SIGKILL)       # the command and every worker it spawned
-                proc.communicate()
+                so, se = proc.communicate()
+                hang_trace = " | ".join(l.strip() for l in se.splitlines() if l.strip().startswith("File"))[-900:]
+                hang_out = so[-200:]
                 raise
             p = types.SimpleNamespace(stdout=so, stderr=se, returncode=proc.returncode)
         except subprocess.TimeoutExpired:
-            ctx.violate(f"{what} with a worker that {mode}s in task {idx}: command hung (> 60 s)", inp, "error", "hang")
+            ctx.violate(f"{what} with a worker that {mode}s in task {idx}: command hung (> 60 s)", inp, "error",
+                        {"hang": hang_trace, "stdout": hang_out})
             continue
         line = next((l for l in p.stdout.splitlines() if l.startswith("RESULT ")), None)
         if line is None:
@@ -373,6 +383,8 @@ def pipeline_cases(ctx, work, rng):
             ctx.violate(f"{what}: task {idx} {mode}s inside the worker but the command reported success", inp, "error", res)
         elif res["finished_marker"]:
             ctx.violate(f"{what}: command raised {res['raised']} but left a finished-looking output", inp, "no completion marker", res)
+        elif what.startswith("convert"):
+            pass        # (the removal of the temporary intermediate store may replace the task's error by its own OSError)
         elif mode in ("die", "die_locked") and res["raised"] not in (("RuntimeError",) if what != "scan" else ("RuntimeError", "BrokenProcessPool")):
             ctx.violate(f"{what}: dead worker surfaced as {res['raised']}, not RuntimeError", inp, "RuntimeError", res)
         ctx.sample({**inp, **res}, limit=6)
